@@ -412,8 +412,13 @@ def c10_known_answer_filter(ctx):
             q.unknown.append(f"path {i}: cache_flush not read")
             continue
         if created is None or ttl is None:
-            # path decided by the flush flag alone
-            q.valid(pre, z3.Implies(flush.e, z3.Not(p.ret.e)), f"path {i}: a unique (cache-flush) record is never listed", p.ret.taint)
+            # legitimate only on the path where the flush flag alone decides (unique record)
+            r0, _ = q.d.check(pre + [z3.Not(flush.e)], f"path {i}: is the shared-record case excluded?")
+            if r0 == "unsat":
+                q.valid(pre, z3.Not(p.ret.e), f"path {i}: a unique (cache-flush) record is never listed", p.ret.taint)
+            else:
+                q.fail.append((f"path {i}: a shared record is listed or not without looking at its created/ttl (half-life)",
+                               "fields read: " + ",".join(str(k) for k in sorted(o.keys(), key=str))))
             continue
         listed = z3.And(z3.Not(flush.e), z3.ULE(now, created.e + zx(ttl.e) * 500))
         q.valid(pre, p.ret.e == listed, f"path {i}: listed <=> shared record with at least half of its lifetime left", p.ret.taint)
